@@ -285,6 +285,10 @@ func main() {
 		for _, t := range pool {
 			run.Tag("traffic/" + t.scenario)
 		}
+		for _, o := range []caseOut{scenarioRepeatedJustifications(4, 0, false), scenarioRepeatedJustifications(4, 0, true),
+			scenarioRepeatedJustifications(7, 2, false), scenarioRepeatedJustifications(7, 2, true)} {
+			absorb(run, o)
+		}
 		parallelCases(run, run.N, one(func(idx int, r *hx.Rng) caseOut {
 			var t *Traffic
 			var op spectypes.OperatorID
